@@ -121,6 +121,17 @@ func (e *Exec) Generate() (err error) {
 		for _, rq := range spec.Requires {
 			e.assume(st, e.evalSpecBool(rq, vars, st, st, "requires"))
 		}
+		for _, gi := range spec.GhostInit {
+			se := &specEnv{e: e, st: st, old: st, vars: vars, bound: map[string]Value{}, where: "ghost init"}
+			v := se.eval(gi.Expr)
+			if u, ok := v.(Untyped); ok {
+				v = Scalar{T: bv64(c, u.V), Typ: intTyp}
+			}
+			if st.ghost == nil {
+				st.ghost = map[string]Value{}
+			}
+			st.ghost[gi.Name] = v
+		}
 		if len(spec.Requires) > 0 {
 			e.Obls = append(e.Obls, &Obligation{Func: e.fnName, Kind: "cover", Label: "requires-satisfiable", Guard: c.True(), Goal: c.True(), Facts: st.facts, Cover: true, Pos: e.Prog.Fset.Position(fn.Pos())})
 		}
